@@ -175,7 +175,7 @@ def run(chk):
         for m_ in msgs[:1]:
             chk.failures.append(core.Failure(m_, "adapters", "matrix", c, got[:1500], key="c16"))
         nt.append(c)
-        if len(chk.failures) > 10: break
+        if chk.too_many(): break
     chk.note_cases("adapters", cases, nt, sample_n=3, dist=dist)
     try:
         fvm = core.build_fvm()
